@@ -403,6 +403,7 @@ def main(argv):
             "aliasing of get_mut/make_mut/get_unique/make_unique/deref_mut, header_mut/slice_mut, drop-check per handle kind). Each negative witness must "
             "produce exactly the marked (line, error code) set and has a compiling twin differing only in the marked lines."
             " R-SELFREF (added later): a returned reference that is the `&self` argument itself re-typed carries that argument's lifetime, not the payload lifetime the handle type names."
+            ' Round fifteen/eighteen: the witnesses call `OffsetArc::make_mut` in path form, which resolves for a method and for an associated function alike.'
         ),
         rule_text="obligations = expected rejections (one per marked line) + twins + positive witnesses + impl-table facts; discharged = those rustc confirms",
         trusted_base=["rustc nightly type checker, borrow checker and drop checker", "handles contain a NonNull (never auto-Send/Sync), so the manual impls are the whole condition"],
